@@ -166,9 +166,10 @@ Proof.
   intros Ht Hw Hne Hsl. pose proof (sep_head w Hw) as Hh.
   destruct (sep_str w) as [|ch r] eqn:E; [congruence|]. cbn [app].
   destruct Hh as [[Hb _]|[-> Hc]]; [apply follows2_blank; exact Hb|].
-  destruct t as [n|x|a b]; cbn [follows2_ok stops_name is_slash] in *.
+  destruct t as [n|x|a b|a b d]; cbn [follows2_ok stops_name is_slash] in *.
   - split; [reflexivity | discriminate].
   - intros ->. specialize (Hsl eq_refl). congruence.
+  - exact I.
   - exact I.
 Qed.
 
@@ -222,7 +223,7 @@ Qed.
 
 Lemma tok_no_cr t : stok2_ok t = true -> ~ In 13 (stok2_str t).
 Proof.
-  intros Ht E. destruct t as [n|c|a b]; cbn [stok2_str stok2_ok] in *.
+  intros Ht E. destruct t as [n|c|a b|a b d]; cbn [stok2_str stok2_ok] in *.
   - destruct n as [|ch n]; [discriminate|]. rewrite forallb_forall in Ht. specialize (Ht _ E).
     destruct (name_facts 13 Ht) as (_ & _ & _ & H & _). congruence.
   - apply andb_true_iff in Ht. destruct Ht as [Ht _]. destruct E as [E|[]]. subst c.
@@ -230,6 +231,10 @@ Proof.
   - destruct (S2_facts a b (S2_in a b Ht)) as (Ha & Hb & _). destruct E as [E|[E|[]]]; subst.
     + destruct (op_facts 13 Ha) as (_ & _ & H & _). congruence.
     + destruct (op_facts 13 Hb) as (_ & _ & H & _). congruence.
+  - destruct (S3_facts a b d (S3_in a b d Ht)) as (Ha & Hb & Hd & _). destruct E as [E|[E|[E|[]]]]; subst.
+    + destruct (op_facts 13 Ha) as (_ & _ & H & _). congruence.
+    + destruct (op_facts 13 Hb) as (_ & _ & H & _). congruence.
+    + destruct (op_facts 13 Hd) as (_ & _ & H & _). congruence.
 Qed.
 
 Lemma render3_no_cr toks : forall ws,
@@ -288,11 +293,13 @@ Proof. induction 1 as [|C cs HC _ IH]; [reflexivity|]. cbn [filter]. unfold nc a
 Lemma ctx_mono toks p p' : ctx_ok p toks = true -> (p' = true -> p = true) -> ctx_ok p' toks = true.
 Proof.
   destruct toks as [|t r]; [reflexivity|]. cbn [ctx_ok]. intros H Hp.
+  destruct p'; [rewrite (Hp eq_refl) in H; exact H|].
+  destruct p; [|exact H].
   apply andb_true_iff in H. destruct H as [H H3]. apply andb_true_iff in H. destruct H as [H1 H2].
-  rewrite H1, H3. rewrite andb_true_r. cbn [andb].
+  apply andb_true_iff in H2. destruct H2 as [H2 H5]. apply andb_true_iff in H2. destruct H2 as [H2 H4].
+  rewrite H1, H3, H4. cbn [negb andb]. rewrite !andb_true_r. rewrite orb_true_r, andb_true_r.
   apply orb_true_iff in H2. destruct H2 as [H2|H2]; [rewrite H2; reflexivity|].
-  apply andb_true_iff in H2. destruct H2 as [Hn H4]. rewrite H4, andb_true_r.
-  destruct p'; [|apply orb_true_r]. rewrite (Hp eq_refl) in Hn. discriminate.
+  cbn [negb andb] in H2. discriminate.
 Qed.
 
 (* the phase-1 token that follows a token's last character token *)
@@ -310,11 +317,12 @@ Proof.
   - destruct (adjust (sep_str w1) l c) as [l1 c1] eqn:E.
     destruct (ctoks w1 l c) as [|n cs]; [|inversion Hc; subst; left; assumption].
     cbn [app forallb] in *. apply andb_true_iff in Hr. destruct Hr as [Hb _].
-    destruct b as [m|x|x y]; cbn [toks_of app stok2_ok] in *; right; eexists; exists r'; (split; [reflexivity|]);
+    destruct b as [m|x|x y|x y z]; cbn [toks_of app stok2_ok] in *; right; eexists; exists r'; (split; [reflexivity|]);
       cbn [head_op is_num_tok fst snd tline tcol].
     + repeat split. apply op_of_name; [destruct m; [discriminate|congruence] | destruct m; [discriminate|exact Hb]].
     + apply andb_true_iff in Hb. destruct Hb as [Hb _]. repeat split; [apply op_of_op; exact Hb | apply number_op; exact Hb].
     + destruct (S2_facts x y (S2_in x y Hb)) as (Hx & _). repeat split; [apply op_of_op; exact Hx | apply number_op; exact Hx].
+    + destruct (S3_facts x y z (S3_in x y z Hb)) as (Hx & _). repeat split; [apply op_of_op; exact Hx | apply number_op; exact Hx].
 Qed.
 
 Lemma sep_str_nonempty w : w <> [] -> sep_str w <> [].
@@ -351,7 +359,9 @@ Proof.
     assert (Hexp' : no_exp r = true).
     { destruct t; cbn [no_exp] in Hexp; auto. destruct r; [reflexivity|]. apply andb_true_iff in Hexp. tauto. }
     cbn [ctx_ok] in Hctx1. apply andb_true_iff in Hctx1. destruct Hctx1 as [Hc12 Hctx'].
-    apply andb_true_iff in Hc12. destruct Hc12 as [Hshift Hincdec].
+    apply andb_true_iff in Hc12. destruct Hc12 as [Hshift Hctx3].
+    apply andb_true_iff in Hctx3. destruct Hctx3 as [Hctx3 Hell].
+    apply andb_true_iff in Hctx3. destruct Hctx3 as [Hincdec Hsha].
     pose proof (fun pv (E : prev_num pv = is_num_tok t) =>
                   IH (w1 :: ws'') l1 (c1 + len (stok2_str t)) pv Hlen Hws' Hr Hsep' Hexp'
                      (eq_ind_r (fun b => ctx_ok b r = true) Hctx' E)) as IH'.
@@ -365,7 +375,7 @@ Proof.
       - apply negb_true_iff in Hneed. congruence.
       - apply (not_adjacent T n (sep_str w1) l1 (c1 + len (stok2_str t))); auto.
         apply sep_str_nonempty. destruct w1; [discriminate|congruence]. }
-    destruct t as [n|x|a b]; cbn [toks_of app stok2_str] in *.
+    destruct t as [n|x|a b|a b d]; cbn [toks_of app stok2_str] in *.
     + (* name *)
       assert (Hne : n <> []) by (destruct n; [discriminate|congruence]).
       assert (Hnc : forallb is_name_char n = true) by (destruct n; [discriminate|exact Ht]).
@@ -376,7 +386,7 @@ Proof.
         destruct Hnext as [Hn'|(b & r' & -> & Hop & _)]; [rewrite (op_of_comment nx Hn'); apply andb_false_r|].
         rewrite Hop. cbn [no_exp] in Hexp. apply andb_true_iff in Hexp. destruct Hexp as [Hx _].
         apply negb_true_iff in Hx. unfold exp_end in Hx. unfold tok_is_number. cbn [tstr tcomment negb andb].
-        destruct b as [m|y|y z]; cbn [head_op starts_pm] in *; [apply andb_false_r | exact Hx | exact Hx].
+        destruct b as [m|y|y z|y z u]; cbn [head_op starts_pm] in *; [apply andb_false_r | exact Hx | exact Hx | exact Hx].
       * destruct REST; [exact I|]. rewrite (op_of_name n l1 c1 Hne Hnc). reflexivity.
     + (* one-character operator *)
       apply andb_true_iff in Ht. destruct Ht as [Hx H46]. apply negb_true_iff in H46.
@@ -387,8 +397,10 @@ Proof.
       * destruct REST as [|nx rest'] eqn:ER; [exact I|].
         destruct (tcomment nx) eqn:Ecm; [rewrite (op_of_comment nx Ecm), orb_true_r; reflexivity|].
         destruct Hnext as [Hn'|(b & r' & Hrb & Hop & _)]; [congruence|].
-        destruct b as [m|y|y z]; cbn [head_op] in Hop.
+        destruct b as [m|y|y z|y z u]; cbn [head_op] in Hop.
         -- rewrite Hop, N.eqb_refl, orb_true_r. reflexivity.
+        -- rewrite (Hadj (mkTok [x] l1 c1 false) nx rest' eq_refl Ecm); [rewrite orb_true_r; reflexivity | | reflexivity | reflexivity].
+           unfold is_opkind2. rewrite Hrb. reflexivity.
         -- rewrite (Hadj (mkTok [x] l1 c1 false) nx rest' eq_refl Ecm); [rewrite orb_true_r; reflexivity | | reflexivity | reflexivity].
            unfold is_opkind2. rewrite Hrb. reflexivity.
         -- rewrite (Hadj (mkTok [x] l1 c1 false) nx rest' eq_refl Ecm); [rewrite orb_true_r; reflexivity | | reflexivity | reflexivity].
@@ -408,6 +420,38 @@ Proof.
         destruct REST as [|nx rest'] eqn:ER; [exact I|].
         destruct Hnext as [Hn'|(b2 & r' & -> & _ & Hnum & _)]; [exact (number_comment nx Hn')|].
         rewrite Hnum. apply negb_true_iff. exact Hnx.
+    + (* three-character operator *)
+      pose proof (S3_in a b d Ht) as Hin.
+      destruct (S3_facts a b d Hin) as (Ha & _).
+      assert (IHn : forall T, tstr T = [a; b; d] -> tcomment T = false ->
+                    filter nc (T :: combine (Some T) REST) = T :: merged3 (w1 :: ws'') r l1 (c1 + len [a; b; d])).
+      { intros T HT HcT. cbn [filter]. unfold nc at 1. rewrite HcT. cbn [negb]. f_equal. apply IH'.
+        cbn [prev_num is_num_tok]. unfold tok_is_number. rewrite HcT, HT. cbn [negb andb].
+        unfold is_number. destruct (op_facts a Ha) as (Hn & _). clear - Hn. revert Hn. unf. lia. }
+      cbn [S3 In] in Hin. destruct Hin as [Hin|[Hin|[Hin|[]]]]; injection Hin as <- <- <-.
+      * cbn [is_shassign N.eqb Pos.eqb negb orb] in Hsha.
+        assert (HX : match REST with e :: _ => op_of e <> 61 | [] => False end).
+        { destruct r as [|b2 r']; [discriminate|]. destruct REST as [|nx rest'] eqn:ER.
+          - unfold REST in ER. cbn [p3] in ER. destruct (adjust (sep_str w1) l1 (c1 + len [60; 60; 61])).
+            destruct b2; cbn [toks_of] in ER; destruct (ctoks w1 l1 (c1 + len [60; 60; 61])); discriminate.
+          - destruct Hnext as [Hn'|(b3 & r3 & Er & Hop & _)]; [rewrite (op_of_comment nx Hn'); discriminate|].
+            injection Er as <- <-. rewrite Hop. clear - Hsha. lia. }
+        cbn [combine]. replace (c1 + 1 + 1) with (c1 + 2) by (clear; lia).
+        rewrite (decide_shassign _ 60 l1 c1 REST (or_introl eq_refl) HX).
+        cbn [setstr tline tcol tcomment]. apply IHn; reflexivity.
+      * cbn [is_shassign N.eqb Pos.eqb negb orb] in Hsha.
+        assert (HX : match REST with e :: _ => op_of e <> 61 | [] => False end).
+        { destruct r as [|b2 r']; [discriminate|]. destruct REST as [|nx rest'] eqn:ER.
+          - unfold REST in ER. cbn [p3] in ER. destruct (adjust (sep_str w1) l1 (c1 + len [62; 62; 61])).
+            destruct b2; cbn [toks_of] in ER; destruct (ctoks w1 l1 (c1 + len [62; 62; 61])); discriminate.
+          - destruct Hnext as [Hn'|(b3 & r3 & Er & Hop & _)]; [rewrite (op_of_comment nx Hn'); discriminate|].
+            injection Er as <- <-. rewrite Hop. clear - Hsha. lia. }
+        cbn [combine]. replace (c1 + 1 + 1) with (c1 + 2) by (clear; lia).
+        rewrite (decide_shassign _ 62 l1 c1 REST (or_intror eq_refl) HX).
+        cbn [setstr tline tcol tcomment]. apply IHn; reflexivity.
+      * cbn [is_ellipsis N.eqb Pos.eqb negb orb] in Hell. apply negb_true_iff in Hell.
+        cbn [combine]. replace (c1 + 1 + 1) with (c1 + 2) by (clear; lia). unfold prev_num in Hell. rewrite Hell. rewrite decide_ellipsis.
+        cbn [setstr tline tcol tcomment]. apply IHn; reflexivity.
 Qed.
 
 Lemma ctoks_lines w : forall l c, 0 < l -> existsb is_marker (ctoks w l c) = false.
@@ -425,7 +469,7 @@ Proof.
   - destruct (adjust_spec (sep_str w) line col) as [Hge _]. destruct (adjust (sep_str w) line col) as [l1 c1]. cbn [fst] in Hge.
     rewrite !existsb_app. rewrite (ctoks_lines w line col Hl). cbn [orb].
     apply orb_false_iff. split; [|apply IH; lia].
-    destruct t as [n|c|a b]; cbn [toks_of existsb]; rewrite ?marker_line by (cbn [tline]; lia); reflexivity.
+    destruct t as [n|c|a b|a b d]; cbn [toks_of existsb]; rewrite ?marker_line by (cbn [tline]; lia); reflexivity.
 Qed.
 
 Theorem lex_render_comments toks ws :
